@@ -150,7 +150,17 @@ func stressOne(seed int64, dur time.Duration, nReaders int) string {
 			defer wg.Done()
 			for atomic.LoadInt32(&stop) == 0 {
 				guard("reader", func() {
-					switch rr.Intn(8) {
+					switch rr.Intn(11) {
+					case 8:
+						c.AllocStats() // takes all three allocator locks
+					case 9, 10:
+						// an iterator abandoned part-way: its producer goroutine releases the pin
+						// (possibly the last reference of a superseded version) on its own
+						it := c.IterateAscend([]byte{0}, rr.Intn(2) == 0)
+						for n := rr.Intn(3); n > 0 && it.Next(); n-- {
+						}
+						it.Close()
+						c.AllocStats()
 					case 0:
 						c.Len()
 					case 1:
